@@ -388,14 +388,14 @@ def judgeC12Conservation (o : Obs) (r : Nat) (init : List Int) : Verdict :=
       (if arg e 1 == 0 then add acc (e.args.drop 2) else if arg e 1 == 1 then sub acc (e.args.drop 2) else acc)
     else acc) init
   let hasSet := o.events.any (fun e => e.tag == "reschange" && arg e 0 == r && arg e 1 == 2)
-  -- borrow blocks (directly on r) that were entered and not left
-  let openBlocks := (idx o).filter (fun p => p.1.tag == "benter" &&
-      (match ((ofLabel o p.1.label).filter (fun q => q.2 < p.2 && q.1.tag == "breq")).getLast? with
-       | some (b, _) => arg b 0 == r
-       | none => false) &&
-      !((ofLabel o p.1.label).any (fun q => q.2 > p.2 && q.1.tag == "bexit" && arg q.1 0 == r)))
-  let pendingReq := (idx o).any (fun p => p.1.tag == "breq" && arg p.1 0 == r &&
-      !((ofLabel o p.1.label).any (fun q => q.2 > p.2 && q.1.tag == "bexit" && arg q.1 0 == r)))
+  -- borrow blocks on r that were requested and not left yet (per activity: a stack of blocks)
+  let openStacks := (labels o).flatMap (fun l =>
+    (ofLabel o l).foldl (fun (st : List Int) p =>
+      if p.1.tag == "breq" then arg p.1 0 :: st
+      else if p.1.tag == "bexit" then st.drop 1
+      else st) [])
+  let pendingReq := openStacks.contains (r : Int)
+  let openBlocks : List Int := []
   let final := o.levels.getD r []
   fail (o.crash == [] && !hasSet && openBlocks.isEmpty && !pendingReq && final != changed)
     s!"resource {r}: every block was left but the available level is {final}, supply is {changed}"
